@@ -343,11 +343,11 @@ def _run(ctx):
     if ctx.shard == 0:
         ids = lg.Ids()
         sibs = []
-        for k_ in range(700):
+        for k_ in range(1500):
             n_ = k_ % 4
             sibs.append({"k": "text", "s": ids.next("t")} if k_ % 3 == 0 else
                         {"k": "tf", "ret": "list", "c": [gen.TAG("b", {"k": "text", "s": ids.next("e")}, ws=False) if j % 2 == 0 else {"k": "text", "s": ids.next("e")} for j in range(n_)]})
-        sibs.insert(350, {"k": "dep", "name": "da", "version": "1.0", "script": [{"src": "big.js"}]})
+        sibs.insert(750, {"k": "dep", "name": "da", "version": "1.0", "script": [{"src": "big.js"}]})
         deep = gen.TAG("em", {"k": "text", "s": ids.next("t")}, {"k": "dep", "name": "db", "version": "1.9", "script": [{"src": "deep.js"}]}, ws=False)
         for d_ in range(45):
             deep = {"k": "tf", "ret": "list" if d_ % 2 else "one", "c": [gen.TAG("div" if d_ % 3 else "span", {"k": "text", "s": ids.next("t")}, deep, ws=bool(d_ % 3))] if d_ % 2 == 0
